@@ -117,6 +117,39 @@ fn oracle(ctx: &Ctx<'_>, stats: &mut ShardStats) -> Vec<(String, String)> {
                 let _ = std::fs::remove_dir_all(&vdir);
                 break; // one variant per program
             }
+            // the same program with a default value of the wrong type on its first variable (and null on a non-null one)
+            if let Some((_, root)) = all.first()
+                && let Some(a) = root.find("($")
+                && let Some(colon) = root[a..].find(": ")
+            {
+                let ty_start = a + colon + 2;
+                let ty_end = ty_start + root[ty_start..].find([',', ')']).unwrap_or(0);
+                let ty = root[ty_start..ty_end].trim().to_string();
+                let defaults: Vec<&str> = if ty.ends_with('!') { vec!["null", "{a: 1}"] } else if ty.starts_with("Int") { vec!["\"x\"", "true"] } else { vec!["{a: 1}", "true"] };
+                for d in defaults {
+                    if root[ty_start..ty_end].contains('=') {
+                        break;
+                    }
+                    let mut variant = all.clone();
+                    variant[0].1 = format!("{} = {d}{}", &root[..ty_end], &root[ty_end..]);
+                    let refs: Vec<(Option<&str>, String)> = variant.iter().map(|(e, l)| (e.as_deref(), l.clone())).collect();
+                    let mut p = ctx.program.project();
+                    p.files = vec![("a.ts".to_string(), crate::project::source_file(&refs))];
+                    let vdir = ctx.dir.with_file_name("default-variant");
+                    p.write_to(&vdir);
+                    *stats.extra.entry("default_value_variants".into()).or_default() += 1;
+                    if let Compiled::Ok(varts) = crate::driver::compile_dir(&vdir) {
+                        *stats.extra.entry("default_value_variants_accepted".into()).or_default() += 1;
+                        let vl = variant.iter().map(|l| l.1.clone()).collect::<Vec<_>>().join("\n");
+                        for (sig, what) in SCHEMA_MODEL.with(|s| check(&varts, s, &vl)) {
+                            if sig.starts_with("default-") {
+                                fails.push((format!("{sig}:{}", if d == "null" { "null-for-non-null" } else { "wrong-type" }), format!("[variant with the default value {d} for a variable of type {ty}, accepted by the compiler] {what}")));
+                            }
+                        }
+                    }
+                    let _ = std::fs::remove_dir_all(&vdir);
+                }
+            }
             fails
         }
         _ => vec![],
